@@ -388,3 +388,73 @@ def declare(reg):
     for pid in ("C15", "C05"):
         reg.properties.setdefault(pid, {}).setdefault("bounded", []).append(
             {"name": "copy-expansion-e2e", "module": "harness.e2e", "func": "CopyExpansion"})
+
+    # ---- Mailbox.search: result list is exactly the matching positions / UIDs, ascending (C14 f) ----
+    reg.contract("asimap/search.py", "SearchContext.__init__",
+                 params={"self": "ref:SearchContext", "mailbox": "ref:Mailbox", "msg_key": "int", "msg_number": "int", "seq_max": "int", "uid_max": "int"},
+                 ensures={"fields": "result.mailbox == mailbox and result.msg_key == msg_key and result.msg_number == msg_number and result.seq_max == seq_max and result.uid_max == uid_max",
+                          "caches-empty": "is_none(result._uid) and is_none(result._msg_size)"},
+                 trusted=True, note="plain field initialisation (search.py:50-89); the object is fresh")
+    reg.contract(P, "Mailbox._maybe_extend_timeout", params={"self": "ref:Mailbox", "timeout_cm": "opt[opaque:Timeout]", "extend": "float"},
+                 trusted=True, note="DESIGN 2.1 rule 4: touches only the timeout context manager")
+    SAT = "sat(search, self, self.msg_keys[n - 1], n, self.num_msgs, self.uids[len(self.uids) - 1])"
+    reg.contract(
+        P, "Mailbox.search", uses_invariant=True,
+        params={"self": "ref:Mailbox", "search": "ref:IMAPSearch", "uid_cmd": "bool", "timeout_cm": "opt[opaque:Timeout]"}, ret="list[int]",
+        ensures={
+            "seq-exact": f"implies(not uid_cmd, forall(lambda n: (n in result) == (1 <= n and n <= self.num_msgs and {SAT})))",
+            "uid-exact": f"implies(uid_cmd, forall(lambda u: (u in result) == exists(lambda n: 1 <= n and n <= self.num_msgs and self.uids[n - 1] == u and {SAT})))",
+            "ascending": "asc(result)",
+        },
+        modifies=["IMAPSearch.ctx", "SearchContext._uid", "SearchContext._uid_vv", "SearchContext._msg_size", "SearchContext._sequences"],
+        loops={0: {"invariant": {
+            "seq-prefix": f"implies(not uid_cmd, forall(lambda n: (n in results) == (1 <= n and n <= _i and {SAT})))",
+            "uid-prefix": f"implies(uid_cmd, forall(lambda u: (u in results) == exists(lambda n: 1 <= n and n <= _i and self.uids[n - 1] == u and {SAT})))",
+            "asc": "asc(results)",
+            "bounded": "forall(lambda j: implies(0 <= j and j < len(results), ite(uid_cmd, exists(lambda n: 1 <= n and n <= _i and self.uids[n - 1] == results[j]), results[j] <= _i)))",
+        }}},
+        props=["C14"],
+        ghost={"harness": "harness.e2e:SearchExact"},
+    )
+
+    # ---- _pack_if_necessary: renumbering keeps every UID on its message (C03 a) -----------------
+    reg.contract(
+        "<stdlib>", "MH.pack", params={"self": "ref:MH"},
+        ensures={
+            "renumbered": "forall(lambda L: implies(asc(L) and elems(L) == old(self.g_keys), "
+                          "forall(lambda k: (k in self.g_keys) == (1 <= k and k <= len(L))) and "
+                          "forall(lambda j: implies(0 <= j and j < len(L), get(self.g_content, j + 1) == get(old(self.g_content), L[j]))) and "
+                          "forall(lambda s, j: implies(0 <= j and j < len(L), mem(self.g_seqs, s, j + 1) == mem(old(self.g_seqs), s, L[j])), 'str', 'int') and "
+                          "forall(lambda s, k: implies(mem(self.g_seqs, s, k), 1 <= k and k <= len(L)), 'str', 'int')), 'list[int]')",
+            "count-kept": "card(self.g_keys) == card(old(self.g_keys))",
+            # arithmetic fact stated, not proved (SMT does not do the induction): the ascending listing of {1..n} is 1, 2, .., n
+            "enum-of-1-n": "forall(lambda M: implies(asc(M) and elems(M) == self.g_keys and len(M) == card(self.g_keys), forall(lambda j: implies(0 <= j and j < len(M), M[j] == j + 1))), 'list[int]')",
+        },
+        modifies=["self.g_keys", "self.g_content", "self.g_seqs"], trusted=True,
+        note="A-MH: mailbox.MH.pack renames the message files to 1..n in ascending order of their old numbers and rewrites .mh_sequences accordingly",
+    )
+    reg.contract("<stdlib>", "MH.iterkeys", params={"self": "ref:MH"}, ret="list[int]",
+                 ensures={"asc": "asc(result)", "all": "elems(result) == self.g_keys", "count": "len(result) == card(self.g_keys)"},
+                 trusted=True, note="A-MH: ascending message numbers")
+    reg.contract(
+        P, "Mailbox._pack_if_necessary", uses_invariant=True,
+        params={"self": "ref:Mailbox"}, ret="bool",
+        requires={
+            "pack-limit": "self.folder_size_pack_limit >= 1",
+            # no undiscovered delivery between the resync and the pack (both run under the folder lock)
+            "folder-is-known": "elems(self.msg_keys) == self.mailbox.g_keys and len(self.msg_keys) == card(self.mailbox.g_keys)",
+            "disk-seqs-current": "forall(lambda s, k: mem(self.mailbox.g_seqs, s, k) == mem(self.sequences, s, k), 'str', 'int')",
+        },
+        ensures={
+            "uids-kept": "same(self.uids, old(self.uids)) and self.next_uid == old(self.next_uid) and self.uid_vv == old(self.uid_vv)",
+            "same-count": "len(self.msg_keys) == len(old(self.msg_keys))",
+            # position i still holds the same message, hence uids[i] still names it
+            "binding-kept": "forall(lambda i: implies(0 <= i and i < len(self.msg_keys), "
+                            "get(self.mailbox.g_content, self.msg_keys[i]) == get(old(self.mailbox.g_content), old(self.msg_keys)[i])))",
+            "flags-follow": "forall(lambda s, i: implies(0 <= i and i < len(self.msg_keys), mem(self.sequences, s, self.msg_keys[i]) == mem(old(self.sequences), s, old(self.msg_keys)[i])), 'str', 'int')",
+            "untouched-when-false": "implies(not result, same(self.msg_keys, old(self.msg_keys)) and same(self.sequences, old(self.sequences)))",
+        },
+        keeps_invariant=True,
+        modifies=["self.msg_keys", "self.sequences", "self._msg_key_to_idx", "self._uid_to_idx", "self.mtime", "MH.g_keys", "MH.g_content", "MH.g_seqs"],
+        props=["C03"],
+    )
